@@ -544,6 +544,11 @@ impl Sim {
             st = cv.wait(st).unwrap();
         }
         if st.shutdown && st.cur != Some(me) {
+            if std::thread::panicking() {
+                // a destructor running while the thread unwinds from an (injected) panic must not
+                // unwind again; after shutdown every hook lets operations through unscheduled
+                return st;
+            }
             drop(st);
             std::panic::resume_unwind(Box::new(Shutdown));
         }
